@@ -50,6 +50,8 @@ const (
 	KRefresh = "refresh" // R, I                                                  -> C14
 	KPanic   = "panic"   // Step panicked                                         -> all
 	KInvalid = "invalid" // documented encoding logged as invalid                 -> C01
+	KIff     = "iff"     // IFF1, IFF2, IM                                        -> C01, C06
+	KIntr    = "intr"    // pending request, RETN/RETI handler notifications      -> C06
 )
 
 // Disc is one discrepancy.
@@ -82,6 +84,10 @@ func StateDiff(got, want *ref.State, pre *ref.State, in *ref.Info) (ds []Disc) {
 		w.IFF1 = g.IFF1
 	}
 	g.F, w.F, g.R, w.R, g.I, w.I = 0, 0, 0, 0, 0, 0
+	if g.IFF1 != w.IFF1 || g.IFF2 != w.IFF2 || g.IM != w.IM {
+		ds = append(ds, Disc{KIff, describeDiff(&ref.State{IFF1: g.IFF1, IFF2: g.IFF2, IM: g.IM}, &ref.State{IFF1: w.IFF1, IFF2: w.IFF2, IM: w.IM})})
+		g.IFF1, g.IFF2, g.IM = w.IFF1, w.IFF2, w.IM
+	}
 	if g != w {
 		ds = append(ds, Disc{KState, describeDiff(&g, &w)})
 	}
